@@ -466,6 +466,11 @@ func (b *BaseStore) Load(ctx context.Context, amount int) error {
 		amount = *b.options.MaxHistory
 	}
 
+	// a non-positive limit means "no limit"; a literal 0 would trim the log to nothing
+	if amount <= 0 {
+		amount = -1
+	}
+
 	var localHeads, remoteHeads []*entry.Entry
 	localHeadsBytes, err := b.Cache().Get(ctx, datastore.NewKey("_localHeads"))
 	if err != nil && err != datastore.ErrNotFound {
